@@ -12,7 +12,12 @@ pub fn absolute<T: AsRef<Path>>(path: T) -> Result<PathBuf, E> {
         match comp {
             C::CurDir => (),
             C::ParentDir => {
-                out.pop().ok_or(E::CannotBeExported(ERROR_MESSAGE))?;
+                // `..` may only remove a normal component: popping the root (or a prefix)
+                // would silently turn the result into a relative path
+                if !matches!(out.last(), Some(C::Normal(_))) {
+                    return Err(E::CannotBeExported(ERROR_MESSAGE));
+                }
+                out.pop();
             }
             comp => out.push(comp),
         }
